@@ -296,7 +296,7 @@ Definition wf_op (s : st) (o : op) : bool :=
       negb (in_txn s) && negb (mem t (files s)) && negb (mem (idx_file t) (files s)) && negb (t =? idx_file t)
       && negb (existsb (fun k => (fst k =? t) || (fst k =? idx_file t)) (frame_keys s ++ dirty s))
   | ODml t marks body post =>
-      forallb (fun k => fst k =? t) marks
+      mem t (dfiles s) && forallb (fun k => fst k =? t) marks
       && forallb (fun k => kmem k marks || kmem k (dirty s) || untracked_ok s k) (store_keys body)
       && forallb (fun k => negb (kmem k marks) && untracked_ok s k) (store_keys post)
       && (in_txn s || match dirty s with [] => true | _ => false end)
@@ -322,8 +322,7 @@ Definition ghost0 : ghost := mkg pempty [].
 Definition ghost_ev (s : st) (g : ghost) (e : ev) : ghost :=      (* s = state before e *)
   match e with
   | EStore f p _ =>
-      if kmem (f, p) (dirty s) then mkg (g_view g) (del_key (f, p) (g_unl g))
-      else mkg (g_view g) (add_key (f, p) (g_unl g))
+      if kmem (f, p) (dirty s) then g else mkg (g_view g) (add_key (f, p) (g_unl g))
   | ESync => mkg (vol s) (g_unl g)
   | EMsync f =>
       if mem f (files s)
